@@ -113,6 +113,7 @@ ResumeFn(h) ==
     LET c == h.cur IN
     CASE c.wake = "acked"  -> R([h EXCEPT !.cur = NoCur], <<Done(c.id, "ok")>>)
       [] c.wake = "failed" -> R([h EXCEPT !.cur = NoCur], <<Done(c.id, "ncpfail")>>)
+      [] c.wake = "closed" -> R([h EXCEPT !.cur = NoCur], <<Done(c.id, "closed")>>)    \* connection lost (Gateway.tla)
       [] c.wake \in {"naked", "timeout"} ->
            IF c.att >= MaxAtt - 1
            THEN R([h EXCEPT !.cur = NoCur, !.st = "FAILED"],
